@@ -106,7 +106,7 @@ func TestDefaultVersion(t *testing.T) {
 	harness.Check(t, "default-version", 3000, 100000, func(rt *rapid.T) {
 		var src []byte
 		if rapid.Bool().Draw(rt, "gen") {
-			c := progs.Draw(rt, px.V74, progs.Options(px.V74), 1, 3)
+			c := progs.Draw(rt, px.V74, progs.StructuralOptions(px.V74), 1, 3)
 			src = c.G.Render(c.Root, progs.Policy(rt, phpgen.PolicySpace, nil)).Src
 		} else {
 			src, _ = inputs.Any(rt)
@@ -160,7 +160,7 @@ func TestSameSideVersions(t *testing.T) {
 		class := ""
 		switch rapid.IntRange(0, 3).Draw(rt, "srckind") {
 		case 0:
-			c := progs.Draw(rt, g[i], progs.Options(g[i]), 1, 3)
+			c := progs.Draw(rt, g[i], progs.StructuralOptions(g[i]), 1, 3)
 			src = c.G.Render(c.Root, progs.Policy(rt, phpgen.PolicyFull, nil)).Src
 			class = "generated"
 		case 1:
